@@ -18,7 +18,6 @@ import (
 	"math/big"
 	"os"
 	"runtime/debug"
-	"runtime/pprof"
 	"sort"
 	"strconv"
 	"strings"
@@ -1271,24 +1270,15 @@ func main() {
 		return
 	}
 	debug.SetGCPercent(800) // the cases allocate many tiny short-lived objects; the live heap is a few MB
-	if p := os.Getenv("VERIF_CPUPROFILE"); p != "" {
-		f, _ := os.Create(p)
-		pprof.StartCPUProfile(f)
-		go func() {
-			time.Sleep(40 * time.Second)
-			pprof.StopCPUProfile()
-			f.Close()
-		}()
-	}
 	engine.Main(&engine.Check{
 		ID:        "C04",
 		Title:     "Schema-driven body processing accounts for every item exactly once",
 		Technique: "bounded exhaustive enumeration of logical contents x Body implementations x schemas x ordered schema splits; every Content / PartialContent / JustAttributes result compared with a set/sequence reference model, two-step vs one-step compared directly",
-		Rule: "logical contents: every sequence of <= 3 items over {a=, b=, x{}, x \"l\"{}, x \"l\" \"l\"{}, y{}} (thorough: + c=, y with 1 and 2 labels), each item identifiable (attribute value 10+i, block body `id = 20+i`), duplicate attribute names only where they land in different files of a merge. " +
-			"Realised as: native; JSON compact (one object, adjacent blocks joined) and JSON array-heavy (arrays at every level); dynblock.Expand of the native body with all blocks static, with every maximal run of same-type blocks written as one dynamic block with a constant for_each, and with only the first run dynamic (thorough: every subset of runs); hcl.MergeBodies of the content cut into 2 (thorough: 2 and 3) consecutive files in every way, every file native or JSON. " +
-			"x all schemas over the names a,b,x,y,z (thorough: + c) with <= 3 (thorough: <= 6) elements: attribute optional/required, block type with 0..2 labels, z (never present) as optional/required attribute or block type (thorough: + a requested as block type, x requested as attribute) " +
-			"x every ordered assignment of the schema elements to 2 parts (thorough: also to 3 non-empty parts), empty parts included. Per split: Content(schema); PartialContent(part1) [PartialContent(part2)] then Content(last part) on the remainder; PartialContent(last part) on the remainder followed by JustAttributes and by Content(complement schema) on the final remainder. " +
-			"Compared with ref/refbody: attribute names and values, per-type block sequences with labels and block identity, error presence, number of errors >= number of erroneous items (not for expanded bodies, where one dynamic block stands for several items); and the union of the steps against the single step directly. A case = (content, realisation), covering all schemas and splits.",
+		Rule: "logical contents: every sequence of <= 3 items over {a=, b=, x{}, x \"l\"{}, x \"l\" \"l\"{}, y{}} (thorough: + y \"l\"{}), each item identifiable (attribute value 10+i, block body `id = 20+i`, labels alternate k/m); sequences with a repeated attribute name only as merges that put the definitions in different files; blocks of one type with different label counts not as JSON. " +
+			"Realised as: native; JSON compact (one object, adjacent blocks joined) and JSON array-heavy (arrays at every level); dynblock.Expand of the native body with all blocks static, with every maximal run of same-type blocks written as one dynamic block with a constant for_each, and with only the first run dynamic (thorough: every subset of runs); hcl.MergeBodies of the content cut into 2 (thorough: 2 and 3) consecutive files in every way incl. empty files, every file native or JSON. " +
+			"x ALL schemas over the names a,b,x,y with <= 3 elements (attribute optional/required; block type with 0, 1 or 2 labels; names absent from a content play the part of unknown names) -- thorough: over a,b,x,y,z with <= 4 elements, z (never present) as optional/required attribute or block type, plus the kind swaps 'a requested as a block type' and 'x requested as an attribute' (merges of 3 files: the quick schema space) " +
+			"x EVERY ordered assignment of the schema elements to 2 parts, empty parts included (thorough: also every assignment onto 3 non-empty parts). Per schema: Content(schema). Per split: PartialContent(part 1) [, PartialContent(part 2)] and then on the remainder both Content(last part) and PartialContent(last part) followed, on the final remainder, by JustAttributes and by Content(complement schema = every name of the content outside the schema with its own kind and label count). " +
+			"Every result is compared with ref/refbody (L1-L3): attribute names and values, per-type block sequences with labels and block identity, error presence, number of errors >= number of erroneous items (not for expanded bodies, where one dynamic block stands for several items); the union of the steps is compared with the single step directly (L4); all implementations are held to the same reference on the same logical content (L5). A case = (content, realisation[, schema chunk]) and covers all its schemas and splits; the check keeps going after a failure and reports per case the failure class that is not yet a recorded finding.",
 		Assumptions: []string{
 			"the reference model ref/refbody is the specification's reading of spec.md 'Schema-driven Processing' / 'Partial Processing of Body Content' / 'Dynamic Attributes Processing' and json/spec.md 'Structural Elements'; where those are silent (label-count mismatch content, duplicate attribute content, null / empty label levels in JSON) the model marks the affected names unspecified and only error presence is compared",
 			"expression evaluation of number literals and of the dynblock iterator object is trusted (used to identify attributes and blocks)",
